@@ -13,7 +13,7 @@ import (
 )
 
 func init() {
-	register(&Rule{ID: "READ.MUSTHIT", Engine: "E-PATH", Min: 4,
+	register(&Rule{ID: "READ.MUSTHIT", Engine: "E-PATH", Min: 3,
 		Desc: "a source that holds a version of the requested key answers the read: from the edge on which the same-key test of a lookup succeeded, every path returns that source's answer before any other source is consulted and before not-found is answered",
 		Run:  runReadMustHit})
 	register(&Rule{ID: "FLUSH.MUST", Engine: "E-PATH", Min: 1,
@@ -51,6 +51,12 @@ func runReadMustHit(c *Ctx, r *RuleRun) {
 	if len(fns) != 2 {
 		r.Undecided("-", "DB.search / levelManager.searchLowerBound", "", "anchors not found")
 		return
+	}
+	// helpers of the package that look a key up on behalf of DB.search
+	for _, g := range p.DirectCallees(fns[0]) {
+		if isEntryLookup(p, g) && g.Pkg == fns[0].Pkg && g != fns[1] && g.Signature.Recv() != nil && p.recvIs(g, "DB") {
+			fns = append(fns, g)
+		}
 	}
 	for _, f := range fns {
 		fn := p.FnName(f)
